@@ -90,8 +90,11 @@ def gen_headers(rng, names, lo, hi, allow_obs):
 def gen_exchange(rng, tag, key, last, quick):
     method = rng.choice(METHODS)
     path, query = rng.choice(PATHS), rng.choice(QUERIES)
-    if rng.random() < 0.04:
-        method, path, query = rng.choice([("PUT", "/vmAgentLog", None), ("POST", "/machine/", "comp=telemetrydata")])
+    exempt = rng.random() < 0.06
+    if exempt:
+        method, path, query = rng.choice([("PUT", "/vmAgentLog", None), ("POST", "/machine/", "comp=telemetrydata"),
+                                          ("PUT", "/VMAGENTLOG", None), ("POST", "/machine/", "comp=TelemetryData"),
+                                          ("POST", "/MACHINE/", "COMP=TELEMETRYDATA"), ("PUT", "/vmagentlog", None)])
     target = path + ("?" + query if query is not None else "")
     frag = "#frag" if rng.random() < 0.03 else ""
     hs = gen_headers(rng, REQ_NAMES, 0, 30 if rng.random() < 0.2 else 8, allow_obs=key is None)
@@ -107,6 +110,8 @@ def gen_exchange(rng, tag, key, last, quick):
     sizes = [0, 0, 0, 1, 2, 17, 300, 1400, 1500, 5000, 20000, 65536, 102399, 102400] if quick else \
         [0, 0, 1, 2, 17, 300, 1400, 1500, 5000, 20000, 65536, 65537, 100000, 102399, 102400, 102400]
     body = b"" if method in ("GET", "HEAD", "OPTIONS", "TRACE", "get") and rng.random() < 0.85 else gen_body(rng, sizes)
+    if exempt and rng.random() < 0.6:
+        body = gen_body(rng, [102401, 150000, 300000])      # the exempt uploads are relayed beyond the 100 KiB class
     chunks = None
     if body and rng.random() < 0.5 or (not body and rng.random() < 0.05):
         chunks = cut(rng, len(body), 12) if rng.random() < 0.5 else [rng.choice([1, 3, 100, 4096, 50000])]
@@ -364,8 +369,60 @@ def run(ctx):
             total += k
         rng.shuffle(replies)
         scenarios.append(e2e.scenario("c14-%d" % s, conns, key=key, concurrent=True, replies={dest: replies},
-                                      scenario_timeout_ms=180000, drain_timeout_ms=20000))
+                                      scenario_timeout_ms=180000, drain_timeout_ms=6000))
         plan.append((dest, pconns))
+    def plain_exchange(tag, key):
+        while True:
+            x = gen_exchange(rng, tag, key, False, ctx.quick)
+            if x["kind"] == "normal" and not x["reply"].get("close") and x["method"] != "HEAD" and x["status"] not in (204, 304):
+                return x
+
+    def add_special(name, dest, key, conn_xs, **knobs):
+        """conn_xs: one list of exchanges per client connection, driven request by request; x["req_knobs"] go to e2e.req"""
+        nonlocal total
+        conns, replies = [], []
+        for ci, xs in enumerate(conn_xs):
+            reqs = []
+            for x in xs:
+                reqs.append(e2e.req(request_bytes(x), timeout_ms=60000, **x.get("req_knobs", {})))
+                replies.append(x["reply"])
+            conns.append(e2e.conn(reqs, audit=e2e.audit(dest, uid=0), id=ci, pipelined=False, timeout_ms=60000))
+            total += len(xs)
+        scenarios.append(e2e.scenario(name, conns, key=key, concurrent=True, replies={dest: replies},
+                                      scenario_timeout_ms=180000, drain_timeout_ms=6000, **knobs))
+        plan.append((dest, conn_xs))
+
+    # one client abandons a large download half-way while another client keeps using its own keep-alive connection to the SAME
+    # endpoint: the second client's later requests must still be answered by the host (one upstream connection per client connection)
+    for k in range(1 if ctx.quick else 6):
+        s = len(scenarios)
+        dest = rng.choice([e2e.WIRESERVER, e2e.IMDS])
+        key = None if rng.random() < 0.5 else {"guid": "c14-%06x" % rng.getrandbits(24), "key": "%064x" % rng.getrandbits(256)}
+        a = plain_exchange("q%d-0-0" % s, key)
+        a["kind"] = "abandoned"
+        a["rbody"] = a["tag"].encode() + b"|" + gen_body(rng, [1500000])
+        a["rheaders"] = [("X-Reply-Tag", a["tag"])]
+        a["reply"] = {"match": a["reply"]["match"], "status": 200, "headers": [["X-Reply-Tag", a["tag"]]],
+                      "body_b64": e2e.base64.b64encode(a["rbody"]).decode(), "write_sizes": [60000], "write_pause_ms": 20}
+        a["req_knobs"] = {"abort_after": rng.choice([30000, 120000, 400000])}
+        bs = []
+        for i in range(5):
+            b = plain_exchange("q%d-1-%d" % (s, i), key)
+            b["req_knobs"] = {"ops_after": [{"op": "sleep_ms", "ms": rng.choice([150, 250, 400])}]}
+            bs.append(b)
+        add_special("c14-abandon-%d" % s, dest, key, [[a], bs])
+    if not ctx.quick:
+        # THOROUGH ONLY (12 s): a host that pauses longer than 10 s in the middle of a chunked body -- the client must still get
+        # the whole body (an idle cut-off that ends the body cleanly would deliver a terminated prefix)
+        s = len(scenarios)
+        x = plain_exchange("q%d-0-0" % s, None)
+        x["status"] = 200
+        x["rbody"] = x["tag"].encode() + b"|" + gen_body(rng, [20000])
+        x["rheaders"] = [("X-Reply-Tag", x["tag"])]
+        x["reply"] = {"match": x["reply"]["match"], "status": 200, "headers": [["X-Reply-Tag", x["tag"]]],
+                      "body_b64": e2e.base64.b64encode(x["rbody"]).decode(), "chunked": [4096], "write_sizes": [9000, 1 << 20],
+                      "write_pause_ms": 11500}
+        add_special("c14-slow-host-%d" % s, e2e.IMDS, None, [[x]])
     results = e2e.run_scenarios(ctx, scenarios, timeout=1800)
     ctx.log("e2e: %d scenarios, %d exchanges" % (len(scenarios), total))
 
@@ -381,7 +438,7 @@ def run(ctx):
         ctx.log("search after the broken proof obligation: %d runs of the F12 witness, %d failing" % (len(stress), len(failures)))
     req_exprs, req_meta, resp_exprs, resp_meta = [], [], [], []
     n_pipelined = n_conn = 0
-    n_f12, n_dead, n_trunc, n_noreply = [0], [0], [0], [0]
+    n_f12, n_dead, n_trunc, n_noreply, n_abandoned = [0], [0], [0], [0], [0]
 
     def add_request_model(case, x, up):
         if x["big_head"]:
@@ -399,9 +456,14 @@ def run(ctx):
 
     for s, (r, (dest, pconns)) in enumerate(zip(results, plan)):
         rp = {"scenario": e2e.jsonable(scenarios[s])}
-        if not r.get("ok") or r.get("panics") or not r.get("drained"):
-            disagreements.append({"case": rp, "model": "scenario runs and drains", "impl": {"error": r.get("error"), "panics": r.get("panics"), "drained": r.get("drained")}})
+        if not r.get("ok") or r.get("panics"):
+            disagreements.append({"case": rp, "model": "scenario runs", "impl": {"error": r.get("error"), "panics": r.get("panics")}})
             continue
+        if not r.get("drained"):
+            # an upstream connection outlived its client connection (or never appeared): not what the model says (one upstream
+            # connection per client connection, closed with it) -- recorded, and the exchanges are still judged by the predicate
+            disagreements.append({"case": rp, "model": "every upstream connection is opened for one client connection and closed with it",
+                                  "impl": {"drained": False, "upstream": {h: [(c["nbytes"], c["closed"]) for c in cs] for h, cs in r["upstream"].items() if cs}}})
         by_tag = {}
         for m in rc.relayed_requests(r, dest):
             for t in m["header"]("x-tag"):
@@ -444,6 +506,10 @@ def run(ctx):
                 why = prop_request(x, up)
                 if why:
                     failures.append({"case": case, "why": "request leg: " + why, "impl": rc.short(up["start_line"])})
+                if x["kind"] == "abandoned":
+                    n_abandoned[0] += 1           # the client went away on purpose: only the request leg is checked
+                    add_request_model(case, x, up)
+                    continue
                 if x["kind"] == "noreply":
                     # the host took the request and died without a word: it must have seen the request exactly ONCE (checked above:
                     # a proxy that silently re-sends a request the host already read duplicates non-idempotent operations), and
@@ -552,6 +618,8 @@ def run(ctx):
                                    "connection", "keep-alive", "upgrade", "proxy-connection", "te", "trailer") for k, _ in x["rheaders"])),
                                "replies_announcing_connection_close": sum(1 for x in allx if x["kind"] == "connclose"),
                                "replies_truncated_mid_body": n_trunc[0], "requests_the_host_dropped_without_answer": n_noreply[0],
+                               "downloads_abandoned_by_one_client_while_another_uses_the_same_endpoint": n_abandoned[0],
+                               "exempt_uploads_over_100KiB": sum(1 for x in allx if len(x["body"]) > 102400),
                                "requests_with_30_70KB_header_block": sum(1 for x in allx if x["big_head"]),
                                "bodyless_methods_carrying_a_body": sum(1 for x in allx if x["body"] and x["method"] in ("GET", "HEAD", "OPTIONS", "TRACE", "get")), "requests_after_the_host_ended_the_connection": n_dead[0]},
     })
